@@ -150,19 +150,20 @@ func goList(paths []string) (map[string]string, map[string]*listPkg) {
 }
 
 type rewriter struct {
-	fset    *token.FileSet
-	info    *types.Info
-	pkg     *types.Package
-	file    *ast.File
-	fname   string
-	rel     string
-	level   int
-	parents map[ast.Node]ast.Node
-	used    bool
-	stats   map[string]int
-	tmp     int
-	dropped map[string]string
+	fset       *token.FileSet
+	info       *types.Info
+	pkg        *types.Package
+	file       *ast.File
+	fname      string
+	rel        string
+	level      int
+	parents    map[ast.Node]ast.Node
+	used       bool
+	stats      map[string]int
+	tmp        int
+	dropped    map[string]string
 	redirected bool
+	nmap       int
 }
 
 func instrumentPackage(lp *listPkg, level int, fileLevels map[string]int, exports map[string]string, overlay map[string]string, stats map[string]int) {
@@ -651,10 +652,74 @@ func (rw *rewriter) rewriteStmtList(n ast.Node, l2 map[ast.Stmt]bool) {
 				out = append(out, st, rw.yieldStmt(x))
 				continue
 			}
+			rw.rewriteMapRange(x)
 		}
 		out = append(out, st)
 	}
 	setStmtList(n, out)
+}
+
+// simpleExpr reports whether e can be evaluated repeatedly without side effects
+// (identifier or selector chain).
+func simpleExpr(e ast.Expr) bool {
+	switch x := e.(type) {
+	case *ast.Ident:
+		return true
+	case *ast.SelectorExpr:
+		return simpleExpr(x.X)
+	case *ast.ParenExpr:
+		return simpleExpr(x.X)
+	}
+	return false
+}
+
+func isBlank(e ast.Expr) bool {
+	id, ok := e.(*ast.Ident)
+	return e == nil || ok && id.Name == "_"
+}
+
+// rewriteMapRange turns `for k, v := range m` over a map into an iteration
+// over simrt.MapKeys(m): Go randomises map iteration order per loop, which no
+// seed controls; MapKeys returns the keys in an order that is a function of
+// the run's seed (and the native order outside a simulation). Entries deleted
+// while the loop runs are skipped, as the language guarantees.
+func (rw *rewriter) rewriteMapRange(x *ast.RangeStmt) {
+	t := rw.info.TypeOf(x.X)
+	if t == nil {
+		return
+	}
+	if _, ok := t.Underlying().(*types.Map); !ok || !simpleExpr(x.X) {
+		return
+	}
+	rw.stats["maprange"]++
+	rw.nmap++
+	kv := ast.NewIdent(fmt.Sprintf("verifKey%d", rw.nmap))
+	okv := ast.NewIdent(fmt.Sprintf("verifOk%d", rw.nmap))
+	m := x.X
+	key, val, tok := x.Key, x.Value, x.Tok
+	var pre []ast.Stmt
+	idx := &ast.IndexExpr{X: m, Index: kv}
+	cont := &ast.IfStmt{Cond: &ast.UnaryExpr{Op: token.NOT, X: okv}, Body: &ast.BlockStmt{List: []ast.Stmt{&ast.BranchStmt{Tok: token.CONTINUE}}}}
+	if !isBlank(val) {
+		if tok == token.DEFINE {
+			pre = append(pre, &ast.AssignStmt{Lhs: []ast.Expr{val, okv}, Tok: token.DEFINE, Rhs: []ast.Expr{idx}})
+		} else {
+			pre = append(pre, &ast.DeclStmt{Decl: &ast.GenDecl{Tok: token.VAR, Specs: []ast.Spec{&ast.ValueSpec{Names: []*ast.Ident{okv}, Type: ast.NewIdent("bool")}}}})
+			pre = append(pre, &ast.AssignStmt{Lhs: []ast.Expr{val, okv}, Tok: token.ASSIGN, Rhs: []ast.Expr{idx}})
+		}
+		pre = append(pre, cont)
+	} else {
+		pre = append(pre, &ast.AssignStmt{Lhs: []ast.Expr{ast.NewIdent("_"), okv}, Tok: token.DEFINE, Rhs: []ast.Expr{idx}}, cont)
+	}
+	if !isBlank(key) {
+		if tok != token.DEFINE {
+			tok = token.ASSIGN
+		}
+		pre = append(pre, &ast.AssignStmt{Lhs: []ast.Expr{key}, Tok: tok, Rhs: []ast.Expr{kv}})
+	}
+	x.Key, x.Value, x.Tok = ast.NewIdent("_"), kv, token.DEFINE
+	x.X = rw.simcall("MapKeys", m)
+	x.Body.List = append(pre, x.Body.List...)
 }
 
 func (rw *rewriter) rewriteGo(g *ast.GoStmt) ast.Stmt {
@@ -691,10 +756,10 @@ func (rw *rewriter) rewriteGo(g *ast.GoStmt) ast.Stmt {
 }
 
 var atomicPkgs = map[string]bool{
-	"sync/atomic":                          true,
-	"go.uber.org/atomic":                   true,
-	"github.com/zhangyunhao116/skipmap":    true,
-	"github.com/zhangyunhao116/skipset":    true,
+	"sync/atomic":                       true,
+	"go.uber.org/atomic":                true,
+	"github.com/zhangyunhao116/skipmap": true,
+	"github.com/zhangyunhao116/skipset": true,
 }
 
 // ownTouchesAtomics reports whether the statement's own expressions (not
